@@ -778,7 +778,7 @@ func parseAnyMetaForTest(b []byte) (interface{}, error) {
 func c14mEval(R *vkit.Report, bt *c14mBuilt, f c14Fault) {
 	g := bt.g
 	cs := c14mCase{Func: g.Func, Field: g.Field, Other: g.Other, Kind: g.Kind, Pad: g.Pad, Shape: g.Shape, Fault: f}
-	rp := map[string]interface{}{"case": cs}
+	rp := map[string]interface{}{"variant": "main", "case": cs}
 	fn := map[string]string{"get": "getTransactionAndMetaFromNode", "parse": "parseTransactionAndMetaFromNode"}[g.Func]
 	res := c14mRun(bt, f)
 	R.Case(f.Kind != "none" || bt.a.N > 1, "")
@@ -835,7 +835,7 @@ func c14mRealEpoch(R *vkit.Report, base string) {
 	defer ep.Close()
 	ctx := context.Background()
 	for i, tt := range e.Truth.Txs {
-		rp := map[string]interface{}{"real_epoch_tx": i}
+		rp := map[string]interface{}{"variant": "main", "real_epoch_tx": i}
 		func() {
 			defer func() {
 				if r := recover(); r != nil {
@@ -903,10 +903,20 @@ func TestVerif_C14_Main(t *testing.T) {
 	groups := c14mGroups(vkit.Thorough(), R)
 
 	if rp := vkit.ReplayRequest(); rp != nil {
+		if v, _ := rp["variant"].(string); v != "main" {
+			R.Note("replay file belongs to variant %q: nothing to do in this one", v)
+			return
+		}
+		if _, ok := rp["real_epoch_tx"]; ok {
+			base := vkBase("c14")
+			defer os.RemoveAll(base)
+			c14mRealEpoch(R, base)
+			return
+		}
 		var cs c14mCase
 		b, _ := json.Marshal(rp["case"])
 		if err := json.Unmarshal(b, &cs); err != nil || cs.Func == "" {
-			R.Note("replay for another variant: ignored")
+			R.Internal("replay: cannot decode case: %v", err)
 			return
 		}
 		bt := c14mBuild(c14mGroup{Func: cs.Func, Field: cs.Field, Other: cs.Other, Kind: cs.Kind, Pad: cs.Pad, Shape: cs.Shape})
